@@ -110,6 +110,12 @@ def stepwise(r, w, mode):
             v = [relayout(x) for x in v] if isinstance(v, types.GeneratorType) else relayout(v)
             wr(v)
             continue
+        if mode == "altrepr":
+            # every date / time / datetime handed to the writer in one of the other representations the generated writers accept
+            # (datetime.datetime, datetime.time, numpy.datetime64 / timedelta64 in ns and in coarser units)
+            v = [altrepr(x) for x in v] if isinstance(v, types.GeneratorType) else altrepr(v)
+            wr(v)
+            continue
         if isinstance(v, types.GeneratorType):
             if mode == "list":
                 wr(list(v))
@@ -283,6 +289,65 @@ def run_sm(mod, proto, role, seq, k, real=None):
         except BaseException as e:
             out.append("throw:" + type(e).__name__)
     return out
+
+
+_ALT = [0]
+
+
+def altrepr(x, depth=0):
+    """returns x with every yardl DateTime / Time / datetime.date replaced by another representation of the same instant that the writers accept"""
+    import datetime
+    import numpy as np
+    if depth > 10:
+        return x
+    tn = type(x).__name__
+    if tn == "DateTime" and hasattr(x, "numpy_value"):
+        ns = int(x.numpy_value.astype("int64"))
+        _ALT[0] += 1
+        if ns % 1000 == 0 and _ALT[0] % 3 != 0:
+            us = ns // 1000
+            if _ALT[0] % 3 == 1:
+                return datetime.datetime(1970, 1, 1, tzinfo=datetime.timezone.utc) + datetime.timedelta(microseconds=us)
+            return np.datetime64(us, "us")
+        return np.datetime64(ns, "ns")
+    if tn == "Time" and hasattr(x, "numpy_value"):
+        ns = int(x.numpy_value.astype("int64"))
+        _ALT[0] += 1
+        if ns % 1000 == 0 and _ALT[0] % 2 == 1:
+            us = ns // 1000
+            return datetime.time(us // 3600000000, us // 60000000 % 60, us // 1000000 % 60, us % 1000000)
+        return np.timedelta64(ns, "ns")
+    if isinstance(x, datetime.date) and not isinstance(x, datetime.datetime):
+        _ALT[0] += 1
+        if _ALT[0] % 2:
+            return np.datetime64(x.toordinal() - datetime.date(1970, 1, 1).toordinal(), "D")
+        return x
+    if isinstance(x, np.ndarray):
+        if x.dtype == object:
+            out = np.empty(x.shape, dtype=object)
+            for idx in np.ndindex(x.shape):
+                out[idx] = altrepr(x[idx], depth + 1)
+            return out
+        return x
+    if isinstance(x, list):
+        return [altrepr(y, depth + 1) for y in x]
+    if isinstance(x, tuple):
+        return tuple(altrepr(y, depth + 1) for y in x)
+    if isinstance(x, dict):
+        return {altrepr(k, depth + 1): altrepr(y, depth + 1) for k, y in x.items()}
+    if hasattr(x, "__dict__") and not isinstance(x, type) and type(x).__module__.split(".")[-1] in ("types",):
+        for k, y in list(vars(x).items()):
+            try:
+                setattr(x, k, altrepr(y, depth + 1))
+            except Exception:
+                pass
+        return x
+    if hasattr(x, "value") and hasattr(type(x), "index") and hasattr(type(x), "tag"):
+        try:
+            return type(x)(altrepr(x.value, depth + 1))
+        except Exception:
+            return x
+    return x
 
 
 def relayout(x, depth=0):
